@@ -186,11 +186,27 @@ def rule_r2(repo):
                         '%s performs a %s of %s.%s: descriptor objects are cached per table group and shared by every message, so the change is visible to '
                         'all later decodes' % (fi.qualname, kind, recv, t.attr))
     # TableR really creates new objects (no cache)
-    tr = repo.own_method('TableR', 'lookup')
-    rets = [norm(r.value) for r in ast.walk(tr.node) if isinstance(r, ast.Return) and r.value is not None]
-    rr.instance('TableR.lookup returns new objects: %s' % rets)
-    if not rets or any(not x.endswith('ReplicationDescriptor(id_)') for x in rets):
-        rr.fail('TableR.lookup:fresh', tr.where, 'TableR.lookup returns %s: replication descriptors get their members assigned by the list builder and must be new objects' % rets)
+    tr = repo.method('TableR', 'lookup')
+
+    class TRI(Interp):
+        def on_call(self2, text, callee, args, kwargs, node, frame):
+            if text.startswith('log.'):
+                return None
+            return self2.NOT_HANDLED
+    for did, want in ((101002, 'FixedReplicationDescriptor'), (102000, 'DelayedReplicationDescriptor'), ('103004', 'FixedReplicationDescriptor')):
+        it = TRI(repo, 'TableR')
+        table = Obj('TableR', {})
+        got = []
+        for k in (0, 1):
+            res = it.run_function(tr, lambda: {'self': table, tr.params[1]: did}, self_class='TableR')
+            oks = [r for r in res if r.ok]
+            if len(res) != 1 or not oks:
+                raise AnalysisError('TableR.lookup(%r) could not be folded: %s' % (did, [r.describe() for r in res]))
+            got.append(oks[0].value)
+        rr.instance('TableR.lookup(%r) twice: new %s each time' % (did, want))
+        if not all(isinstance(g, Obj) and g.cls == want for g in got) or got[0] is got[1]:
+            rr.fail('TableR.lookup:fresh', tr.where, 'TableR.lookup(%r) returns %s and then %s%s: replication descriptors get their members assigned by the list builder and '
+                    'must be a new %s every time' % (did, got[0], got[1], ' (the same object)' if got[0] is got[1] else '', want))
     if n < 20:
         raise AnalysisError('only %d descriptor-field stores found (expected >= 20)' % n)
     rr.require_floor(20)
@@ -470,16 +486,46 @@ def rule_r7(repo):
                     rr.fail('%s:mutates-%s' % (fi.qualname, tgt), '%s:%d' % (fi.module.relpath, node.lineno), '%s mutates the module-level object %s' % (fi.qualname, tgt))
             n += 1
     rr.instance('%d functions scanned for writes to module-level containers' % n)
-    # class-level mutable singletons
+    # class-level objects that act as process-wide state: a container bound in a class body that some function changes in place
+    # (through whatever object it is reached), or an instance of a repository class whose methods write to themselves.  A class-level
+    # table that is only read (a dispatch table, a table of defaults) is a constant, whatever its type.
+    mutated_attrs = set()
+    for fi in repo.all_funcs():
+        for node in ast.walk(fi.node):
+            base = None
+            if isinstance(node, (ast.Assign, ast.AugAssign, ast.Delete)):
+                for t in (node.targets if isinstance(node, (ast.Assign, ast.Delete)) else [node.target]):
+                    if isinstance(t, ast.Subscript) and isinstance(t.value, ast.Attribute):
+                        base = t.value
+                    elif isinstance(node, ast.AugAssign) and isinstance(t, ast.Attribute):
+                        base = t
+                    if base is not None:
+                        mutated_attrs.add(base.attr)
+            elif isinstance(node, ast.Call) and isinstance(node.func, ast.Attribute) and node.func.attr in MUTATORS and isinstance(node.func.value, ast.Attribute):
+                mutated_attrs.add(node.func.value.attr)
+    from sa.patheval import NT_FIELDS, VALUE_CLASSES, Interp as _I
+    _I(repo, None)      # (fills the namedtuple registry)
+    containers = ('dict', 'list', 'set', 'OrderedDict', 'defaultdict', 'deque', 'bytearray', 'Counter')
     singles = []
     for c in repo.class_index.values():
         for ci in c:
             for k, v in ci.class_consts.items():
-                if isinstance(v, (ast.Call, ast.Dict, ast.List, ast.Set)):
+                stateful = False
+                if isinstance(v, (ast.Dict, ast.List, ast.Set)) or (isinstance(v, ast.Call) and norm(v.func).split('.')[-1] in containers):
+                    stateful = k in mutated_attrs
+                elif isinstance(v, ast.Call):
+                    callee = norm(v.func).split('.')[-1]
+                    if callee in VALUE_CLASSES or callee in NT_FIELDS:
+                        stateful = False
+                    elif repo.has_cls(callee):
+                        stateful = any(effects(f).written('self') for n_, f in repo.cls(callee).methods.items() if n_ != '__init__')
+                    else:
+                        stateful = k in mutated_attrs
+                if stateful:
                     singles.append('%s.%s' % (ci.name, k))
-    rr.instance('class-level mutable objects: %s' % sorted(singles))
+    rr.instance('class-level objects that are changed in place: %s' % sorted(singles))
     if sorted(singles) != ['TableGroupCacheManager._TABLE_GROUP_CACHE']:
-        rr.fail('class-level-state', 'pybufrkit', 'class-level mutable objects are %s; only the table-group cache is expected to be process-wide' % sorted(singles))
+        rr.fail('class-level-state', 'pybufrkit', 'class-level objects that are changed in place are %s; only the table-group cache is expected to be process-wide' % sorted(singles))
     rr.require_floor(2)
     return rr
 
